@@ -43,6 +43,7 @@ type c03Case struct {
 	ParenJ int   `json:"paren_j"`
 	Paren2 []int `json:"paren2,omitempty"` // a second group [i, j], disjoint from or nested inside the first
 	Neg    []int `json:"neg"`              // negated operand indices (never a regex operand)
+	Tight  bool  `json:"tight,omitempty"`  // symbol operators written without blanks around them (a<-b, a*(b+c))
 }
 
 type c03tok struct {
@@ -65,7 +66,21 @@ func c03build(c c03Case) (text string, toks []c03tok) {
 	for i := 0; i < n; i++ {
 		if i > 0 {
 			o := c03ops[c.Ops[i-1]]
-			b.WriteString(" " + o.text + " ")
+			if c.Tight && !o.space {
+				b.WriteString(o.text)
+				// the one fusion hazard: a minus operator directly before a minus sign would start a `--` comment
+				opensNeg := neg[i]
+				for _, g := range c03groups(c) {
+					if g[0] == i && g[2] == 1 && neg[-1-i] {
+						opensNeg = true
+					}
+				}
+				if o.text == "-" && opensNeg {
+					b.WriteString(" ")
+				}
+			} else {
+				b.WriteString(" " + o.text + " ")
+			}
 			toks = append(toks, c03tok{kind: "op", op: c.Ops[i-1], text: o.text})
 		}
 		// open every group that starts at this operand, outermost first; only the first group can carry a minus
@@ -239,17 +254,23 @@ func init() {
 
 func c03run(r *ev.Run) {
 	nops := len(c03ops)
-	bareK, parenK, maxNeg := 3, 3, 1
+	bareK, parenK, maxNeg, tightK := 3, 3, 1, 2
 	if thorough(r) {
-		bareK, parenK, maxNeg = 5, 4, 2
+		bareK, parenK, maxNeg, tightK = 5, 4, 2, 3
 	}
-	r.Rule = fmt.Sprintf("every chain of k<=%d operators over all %d spellings (bare), and for k<=%d every placement of one parenthesised contiguous sub-chain x every set of <=%d negated operands (incl. a negated group); state = distinct expression text; non-trivial = parsed and compared with the reference grouping", bareK, nops, parenK, maxNeg)
+	r.Rule = fmt.Sprintf("every chain of k<=%d operators over all %d spellings (bare), and for k<=%d every placement of one parenthesised contiguous sub-chain x every set of <=%d negated operands (incl. a negated group); each chain of k<=%d operators also written without blanks around its symbol operators; state = distinct expression text; non-trivial = parsed and compared with the reference grouping", bareK, nops, parenK, maxNeg, tightK)
 	r.Set("operator_spellings", nops)
 	r.Set("max_chain_bare", bareK)
 	r.Set("max_chain_with_parens_and_negation", parenK)
 	r.Set("max_negated_operands", maxNeg)
 
-	run := func(c c03Case) {
+	var run func(c c03Case)
+	run = func(c c03Case) {
+		if !c.Tight && len(c.Ops) <= tightK {
+			t := c
+			t.Tight = true
+			defer run(t)
+		}
 		n := r.Eval()
 		text, _ := c03build(c)
 		r.State(astx.HashString(text), true)
